@@ -203,7 +203,7 @@ class Histories(Suite):
         def rpat(t):
             return [x if rng.random() < 0.55 else None for x in t]
 
-        n = rng.choice([2, 3, 4, 5, 6, 8, 10, 12]) if i % 12 != 11 else rng.randint(15, 40)
+        n = rng.choice([2, 3, 4, 5, 6, 8, 10, 12]) if i % 12 != 11 else rng.randint(15, 28)
         ops = []
         for _ in range(n):
             r = rng.random()
